@@ -97,7 +97,7 @@ func (Engine) Shrink(sci interface{}) []interface{} {
 
 func (Engine) Describe() harness.EngineInfo {
 	return harness.EngineInfo{
-		Rule:        "history = 6 aliases (a0..a5) bound to seeded lists of ints, string-keyed dicts and sets of scalars, some aliases of one another, then 2-12 operations: list item/slice/extended-slice assignment and deletion with every sign/omission shape, append, extend/+=/slice-assign from list, tuple, iterator, generator expression, another alias or the list itself, sort (plain, reverse, key, key that mutates or reads the list or another alias), *=, +, *, membership, len, equality/identity, indexing, copies by constructor/slice/+[]/*1/sorted, rebinding aliases, live iterators (two slots) stepped between mutations, copies between lists and two observed tuples (list(t), sorted(t), tuple(list), constant tuples inside functions), for-loops that append to or delete from the list they iterate; dict set/del/get/membership/len/views/equality/copy/update/overwrite-while-iterating and keys-values-items agreement; set add/membership/len/equality/copy/|&-^/update/iteration (1 in 4 histories mixes equal scalars of different types: 1, True, 1.0); after every operation the result or exception class and a dump of all six aliases are logged. distinct = distinct program sources; non-trivial = at least one mutation through an alias",
+		Rule:        "history = 6 aliases (a0..a5) bound to seeded lists of ints, string-keyed dicts and sets of scalars, some aliases of one another, then 2-12 operations: list item/slice/extended-slice assignment and deletion with every sign/omission shape, append, extend/+=/slice-assign from list, tuple, iterator, generator expression, another alias or the list itself, sort (plain, reverse, key, key that mutates or reads the list or another alias), *=, +, *, membership, len, equality/identity, indexing, copies by constructor/slice/+[]/*1/sorted, rebinding aliases, live iterators (two slots) stepped between mutations, copies between lists and two observed tuples (list(t), sorted(t), tuple(list), constant tuples inside functions), for-loops that append to or delete from the list they iterate; dict set/del/get/membership/len/views/equality/copy/update/overwrite-while-iterating and keys-values-items agreement; set add/membership/len/equality/copy/|&-^/update/iteration (1 in 4 histories mixes equal scalars of different types: 1, True, 1.0); after every operation the result or exception class and a dump of all six aliases are logged. distinct = distinct program sources; non-trivial = at least one mutation through an alias; operands that mutate the container while the operation reads them (slice assignment / extend / += from a generator that appends to, deletes from or clears the same list; dict.update from pairs that set keys; set.update from a generator that adds); in-place set operators |= &= -= ^= (incl. with the set itself)",
 		Real:        []string{"py.List / py.StringDict / py.Set and their iterators", "vm STORE_SUBSCR / DELETE_SUBSCR / INPLACE_* / BUILD_*", "py.SortInPlace", "builtins list dict set sorted iter next len zip"},
 		Stubbed:     []string{"the environment choosing which alias mutates while which iterator is live -> seeded history", "Go map iteration order of dict and set -> simulator (asc/desc/rotation/per-loop permutation)", "reference model -> CPython 3.11 containers running the same history"},
 		Assumptions: []string{"methods are generated from a static list of what the pinned tree registers (list: append extend sort; dict: items keys values get; set: add) plus update, which the property names", "list elements are ints; dict keys are strings; set elements ints, strs (and bool/float equal to ints in the mixed class)"},
@@ -153,6 +153,12 @@ func (Engine) Exec(sci interface{}, opt harness.ExecOpts) *harness.Outcome {
 	mut := false
 	for _, op := range sc.Prog.Ops {
 		out.Probe("op:" + op.Kind)
+		switch {
+		case strings.HasPrefix(op.Kind, "fail."):
+			out.Fault("operation_fails_half_way", 1)
+		case strings.HasPrefix(op.Kind, "reent."):
+			out.Fault("operand_mutates_container_while_read", 1)
+		}
 		if op.Stmt != "" {
 			mut = true
 		}
